@@ -5,7 +5,7 @@ use ntex_bytes::{ByteString, Bytes};
 use ntex_util::{channel::pool, future::Either, future::Ready};
 
 use super::codec::{self, EncodeLtd};
-use super::shared::{Ack, AckType, MqttShared};
+use super::shared::{Ack, AckType, MqttShared, Waiter};
 use crate::{error::EncodeError, error::SendPacketError, types::QoS};
 
 pub struct MqttSink(Rc<MqttShared>);
@@ -62,7 +62,16 @@ impl MqttSink {
         } else {
             self.0.wait_readiness().map_or_else(
                 || Either::Left(ready(true)),
-                |rx| Either::Right(async move { rx.await.is_ok() }),
+                |rx| {
+                    let shared = self.0.clone();
+                    let waiter = Waiter::new(&shared, rx);
+                    Either::Right(async move {
+                        let ready = waiter.await.is_ok();
+                        // readiness check does not use send window slot
+                        shared.wake_waiter();
+                        ready
+                    })
+                },
             )
         }
     }
@@ -318,17 +327,14 @@ impl PublishBuilder {
             self.packet.qos = QoS::AtLeastOnce;
             self.packet.payload_size = payload.len() as u32;
 
-            // handle client receive maximum
-            if let Some(rx) = self.shared.wait_readiness() {
-                Either::Left(Either::Left(async move {
-                    if rx.await.is_err() {
-                        return Err(SendPacketError::Disconnected);
-                    }
-                    self.send_at_least_once_inner(payload).await
-                }))
-            } else {
-                Either::Left(Either::Right(self.send_at_least_once_inner(payload)))
-            }
+            // handle client receive maximum, send window is checked
+            // at the time packet gets encoded
+            Either::Left(async move {
+                if let Some(rx) = self.shared.wait_readiness() {
+                    Waiter::new(&self.shared, rx).await?;
+                }
+                self.send_at_least_once_inner(payload).await
+            })
         }
     }
 
@@ -381,17 +387,14 @@ impl PublishBuilder {
             self.packet.qos = QoS::AtLeastOnce;
             self.packet.payload_size = size;
 
-            // handle client receive maximum
-            let fut = if let Some(rx) = self.shared.wait_readiness() {
-                Either::Left(Either::Left(async move {
-                    if rx.await.is_err() {
-                        return Err(SendPacketError::Disconnected);
-                    }
-                    self.stream_at_least_once_inner(tx, None).await
-                }))
-            } else {
-                Either::Left(Either::Right(self.stream_at_least_once_inner(tx, None)))
-            };
+            // handle client receive maximum, send window is checked
+            // at the time packet gets encoded
+            let fut = Either::Left(async move {
+                if let Some(rx) = self.shared.wait_readiness() {
+                    Waiter::new(&self.shared, rx).await?;
+                }
+                self.stream_at_least_once_inner(tx, None).await
+            });
             (fut, stream)
         }
     }
@@ -447,10 +450,9 @@ impl PublishBuilder {
 
             // handle client receive maximum
             if let Some(rx) = self.shared.wait_readiness() {
+                let waiter = Waiter::new(&self.shared, rx);
                 Either::Left(Either::Left(async move {
-                    if rx.await.is_err() {
-                        return Err(SendPacketError::Disconnected);
-                    }
+                    waiter.await?;
                     self.send_exactly_once_inner(payload).await
                 }))
             } else {
@@ -614,10 +616,8 @@ impl SubscribeBuilder {
             Err(SendPacketError::Disconnected)
         } else {
             // handle client receive maximum
-            if let Some(rx) = shared.wait_readiness()
-                && rx.await.is_err()
-            {
-                return Err(SendPacketError::Disconnected);
+            if let Some(rx) = shared.wait_readiness() {
+                Waiter::new(&shared, rx).await?;
             }
 
             // allocate packet id
@@ -702,10 +702,8 @@ impl UnsubscribeBuilder {
             Err(SendPacketError::Disconnected)
         } else {
             // handle client receive maximum
-            if let Some(rx) = shared.wait_readiness()
-                && rx.await.is_err()
-            {
-                return Err(SendPacketError::Disconnected);
+            if let Some(rx) = shared.wait_readiness() {
+                Waiter::new(&shared, rx).await?;
             }
             // allocate packet id
             packet.packet_id = self.id.unwrap_or_else(|| shared.next_id());
